@@ -23,9 +23,10 @@ Print Assumptions C16_get_set_all_list_identity.
 
 (* ---- a tied group counts once: the free-parameter list has no duplicates and no two free names
    share a cell, after EVERY history (any interleaving of create / fix / free / tie / share_r /
-   bound / set / set_all / refresh / coordinate changes / standardise) in which a name is freed only
-   when no other free name shares its cell ([count_safe]; automatically true in configuration order,
-   where fix/free precedes tie) and no rename/remove occurs. *)
+   bound / set / set_all / refresh / coordinate changes / standardise) without rename/remove
+   ([count_safe]).  Freeing or fixing a tied name needs no side condition: set_fix handles the free
+   list through the shared object (a configuration applies coef_head / equal ties BEFORE fix_var /
+   free_var, so this order is inside the property). *)
 Theorem C16_tied_count_once :
   forall (V : Type) (h : list (op V)),
     hist_ok count_safe init h = true ->
@@ -35,13 +36,41 @@ Proof.
 Qed.
 Print Assumptions C16_tied_count_once.
 
-(* the hypothesis is needed: freeing a tied name after the tie (outside configuration order) *)
-Theorem C16_unfix_after_tie_counts_twice :
-  trainable (run init unfix_after_tie) = ["a"; "b"] /\
-  dget "a" (vars (run init unfix_after_tie)) = dget "b" (vars (run init unfix_after_tie)) /\
-  hist_ok count_safe init unfix_after_tie = false.
-Proof. exact unfix_after_tie_counts_twice. Qed.
-Print Assumptions C16_unfix_after_tie_counts_twice.
+(* the OLD set_fix (bookkeeping by name, [set_fix_old]) REFUTED this for fix/free after a tie: freeing
+   the tied name b listed the shared object twice, fixing b left the group in the free list *)
+Theorem C16_old_set_fix_after_tie_refuted :
+  trainable (set_fix_old "b" None 0%Q true (run init tie_ab)) = ["a"; "b"] /\
+  dget "a" (vars (set_fix_old "b" None 0%Q true (run init tie_ab))) =
+  dget "b" (vars (set_fix_old "b" None 0%Q true (run init tie_ab))) /\
+  trainable (set_fix_old "b" (Some 5%Q) 5%Q false (run init tie_ab)) = ["a"].
+Proof. exact old_unfix_after_tie_counts_twice. Qed.
+Print Assumptions C16_old_set_fix_after_tie_refuted.
+
+(* set_fix as repaired: freeing b keeps one entry; fixing b at 5 empties the free list, and the bulk
+   load that follows moves nothing *)
+Theorem C16_fix_free_after_tie :
+  trainable (run init unfix_after_tie) = ["a"] /\
+  trainable (run init fix_after_tie) = [] /\
+  all_dic (run init fix_after_tie) = [("a", 5%Q); ("b", 5%Q)] /\
+  hist_ok count_safe init unfix_after_tie = true.
+Proof. exact fix_free_after_tie. Qed.
+Print Assumptions C16_fix_free_after_tie.
+
+(* tying a free parameter to a fixed one fixes the group at the FIXED member's value (was: at the
+   free head's value, so that a fixed parameter changed without being assigned) *)
+Theorem C16_tie_fixed_member_keeps_value :
+  all_dic (run init tie_fixed_member) = [("a", 3%Q); ("b", 3%Q)] /\ trainable (run init tie_fixed_member) = [].
+Proof. exact tie_fixed_member_keeps_value. Qed.
+Print Assumptions C16_tie_fixed_member_keeps_value.
+
+(* a complex tie aligns the polar flags of its members with the owner of the kept cells, so a tie of
+   a Cartesian to a polar parameter is [polar_safe] (both read the same complex value) *)
+Theorem C16_tie_mixed_flags_aligned :
+  cplx (run init tie_mixed_flags) = [("a", true); ("b", true)] /\
+  hist_ok tie_safe init tie_mixed_flags = true /\
+  hist_ok_inv (fun _ _ => true) polar_safe init tie_mixed_flags = true.
+Proof. exact tie_mixed_flags_aligned. Qed.
+Print Assumptions C16_tie_mixed_flags_aligned.
 
 (* ---- value-phase operations never re-point a name, change the free list or the tie groups *)
 Theorem C16_value_ops_keep_structure :
@@ -115,8 +144,8 @@ Print Assumptions C16_tied_read_refuted.
 Theorem C16_tied_chain_refuted :
   same (run init f11c_history) = [["a1"; "a0"]; ["a2"; "a0"]] /\
   trainable (run init f11c_history) = ["a1r"; "a1i"] /\
-  read (run init f11c_history) "a1r" = Some 3%Q /\ read (run init f11c_history) "a0r" = Some 5%Q /\
-  read (run init f11c_history) "a2r" = Some 5%Q.
+  read (run init f11c_history) "a1r" = Some 9%Q /\ read (run init f11c_history) "a0r" = Some 3%Q /\
+  read (run init f11c_history) "a2r" = Some 3%Q.
 Proof. exact tied_chain_refuted. Qed.
 Print Assumptions C16_tied_chain_refuted.
 
@@ -170,15 +199,20 @@ Theorem C16_polar_switch_all_preserves_value :
 Proof. intros V C cv s t ns o. exact (polar_switch_all_preserves_value cv s t ns o). Qed.
 Print Assumptions C16_polar_switch_all_preserves_value.
 
+(* std_polar = xy2rp; if r < 0: (|r|, p + pi); finally p := its representative in [-pi, pi) (the last
+   step is performed since the repair of the discarded _std_polar_angle result; its contract, third
+   hypothesis, and the range -pi <= pw < pi are checked per call by Coq-Interval in the harness) *)
 Theorem C16_std_polar_preserves_value :
-  forall (V C : Type) (cv : bool -> V -> V -> C) (s : state V) n o fl zn,
+  forall (V C : Type) (cv : bool -> V -> V -> C) (s : state V) n o fl pw zn,
     flags_consistent s -> groups_closed s -> cvalue cv s n = Some zn ->
     (forall a b, read s (nr n) = Some a -> read s (ni n) = Some b -> cv true (fst o) (snd o) = cv false a b) ->
     (forall r' p' a b, fl = Some (r', p') ->
        read (conv true n o s) (nr n) = Some a -> read (conv true n o s) (ni n) = Some b ->
        cv true r' p' = cv true a b) ->
-    forall m z, cvalue cv s m = Some z -> cvalue cv (step s (StdPolar n o fl)) m = Some z.
-Proof. intros V C cv s n o fl zn. exact (std_polar_preserves_value cv s n o fl zn). Qed.
+    (forall a b, read (std_polar_mid n o fl s) (nr n) = Some a -> read (std_polar_mid n o fl s) (ni n) = Some b ->
+       cv true a pw = cv true a b) ->
+    forall m z, cvalue cv s m = Some z -> cvalue cv (step s (StdPolar n o fl pw)) m = Some z.
+Proof. intros V C cv s n o fl pw zn. exact (std_polar_preserves_value cv s n o fl pw zn). Qed.
 Print Assumptions C16_std_polar_preserves_value.
 
 (* the two state conditions have an executable form [polar_safe]; [clean_hist] (evaluated by
@@ -305,6 +339,7 @@ Proof. intros n [<-|[<-|[]]]; vm_compute; split; reflexivity. Qed.
 Example C16_example_count_safe :
   hist_ok count_safe (@init Q)
     [AddReal "a" 1%Q true true; AddReal "b" 2%Q true false; SetFix "b" None 0%Q true; SetSame ["a"; "b"] false;
+     SetFix "b" None 0%Q true;
      SetAllList [(5%Q, 5%Q)] false] = true.
 Proof. vm_compute. reflexivity. Qed.
 Example C16_example_polar_safe : hist_ok_inv tie_safe polar_safe init fc_example = true.
